@@ -13,7 +13,7 @@ import hashlib
 import json
 
 ID = "C21"
-CASES = {"quick": 32, "thorough": 512}
+CASES = {"quick": 48, "thorough": 512}
 SOFT = 150
 HARD = 400
 BUDGET = {"quick": 20, "thorough": 90}
@@ -57,7 +57,10 @@ TEST_UNIQUE = {"csv": False, "xml": True, "rest": True, "tar": False}
 
 
 def generate(rnd, tier):
-    which = WHICH[rnd.randrange(4)]
+    # stratified over the four formalisations by the runner's running case index (a quick tier has only a
+    # few dozen cases; a plain random choice left one formalisation without cases in some runs)
+    idx = getattr(rnd, "verif_index", None)
+    which = WHICH[(idx // 64 + idx % 64) % 4] if idx is not None else WHICH[rnd.randrange(4)]
     r = rnd.random()
     if r < 0.3:
         mode, cost = "default", None
